@@ -48,7 +48,7 @@ type Prog struct {
 	collect      map[*types.Func]bool // anchor collection mode
 	liveList     []*FuncInfo
 	quiet        map[*FuncInfo]bool
-	mutVars map[*types.Var]bool
+	mutVars      map[*types.Var]bool
 	vtaG         *vtaGraph
 }
 
